@@ -39,6 +39,8 @@ CHECKS = {
             'timeouts equal to / bracketing the service time, early-closed streams, bounded forced clock advances and line-granular preemption in _server.py'),
     'C03': ('exploration', 'property-based testing (Hypothesis): type-directed generated operator programs and inputs run under the deterministic scheduler (default schedule + short tapes); oracle: independent lazy reference interpreter (outputs, terminal exception, peek transcript), multiset for shuffle, pull counters for laziness', SIM_NOTE,
             'generated programs (0-6 operators) x inputs x consumption modes against a reference interpreter; laziness via an instrumented source'),
+    'C10': ('exploration', T_SIM + 'each fork == source prefix with the source ending (type+args); pull counter; window invariant pulled-slowest <= buffer_size+2 at every step; deadlock/horizon verdicts; line-granular preemption inside _tee.py', SIM_NOTE,
+            '2-3 forks x buffer sizes x source lengths (0, 1, <=window, >window) x source failure positions x owned schedules incl. preemption between any two lines of the fork step'),
     'C11': ('fault_enumeration', T_SIM + 'every init-failure position of every generated servlet tree is enumerated (exhaustive per tree); enter must raise that error and leave nothing running; lifecycle histories with re-entry judged by the reference evaluator; real-process family for ProcessServlet incl. abandoned streams', SIM_NOTE + ' ' + REAL_NOTE,
             'complete enumeration of (servlet, worker index) init-failure positions per generated tree; generated workloads x enter/exit/re-enter cycles x owned schedules; sampled real processes'),
     'C19': ('exploration', T_SIM + 'validity predicates over the (virtual time, batch) log: partition, sizes, exact deadline rule with stall budget 0', SIM_NOTE,
